@@ -202,12 +202,26 @@ PROPS = {
         "rule": "every registered instruction by NAME on generated states (size-like operands up to the envelope cap of 2000, negative and extreme elsewhere): the weight of the state (points, vector elements, characters, queue and graph contents) after the step against a bound that depends only on the weight before; five structure-doubling programs (DUP + LIST / APPEND / CONS under EXEC.Y) stepped 10..45 (thorough ..70) times under the default limits: largest CODE / EXEC item against max_points_in_program; non-trivial = the state changed",
         "assumptions": ["PARTIAL: wall-clock time and allocator behaviour of a step are runtime behaviour; the model measures growth of the state, which bounds the memory a step retains", "operands above the envelope cap are not executed (they would exhaust the host: that is finding K05 itself)"],
     },
+    "C10": {
+        "scenarios": lambda tier, q: [
+            {"name": "starve", "args": []},
+            {"name": "exec", "args": ["*", "60" if tier == "quick" else "600"]},
+        ],
+        "signature": sig_exec,
+        "rule": "every registered instruction by NAME on rich states in which one stack (each of the ten typed stacks, the INPUT queue and the GRAPH stack, truncated to depth 0, 1 and 2) or a random pair of stacks has been made too short, bystander stacks filled; plus generated rich and sparse states; all public fields compared before/after: fields outside the documented footprint must be unchanged, and when a needed operand is missing every stack must only have been popped and bindings, flags, graphs, index and queues must be unchanged; non-trivial = the state changed",
+        "exhaustive": True,
+        "assumptions": ["guards other than operand presence (zero divisor, id > 0, non-empty vector ...) are covered by the frame statement only; INTVECTOR.SET*INSERT creating an empty vector is documented behaviour"],
+    },
     "C01": {
         "scenarios": lambda tier, q: [
             {"name": "exec", "args": ["*"]},
+            {"name": "steps", "args": ["*"]},
+            {"name": "run", "args": []},
+            {"name": "parse", "args": []},
+            {"name": "cmd", "args": []},
         ],
         "signature": sig_exec,
-        "rule": "every registered instruction, driven by NAME through InstructionSet, on generated states (rich and sparse stacks, boundary-biased operands, index-like integers, extreme ints, non-finite floats, empty and unequal vectors); size-like operands of allocating instructions are capped at 2000 (resource envelope); a transition is non-trivial when the state changed; distinct = distinct request lines",
+        "rule": "every registered instruction, driven by NAME through InstructionSet, on generated states (rich and sparse stacks, boundary-biased operands, index-like integers, extreme ints, non-finite floats, empty and unequal vectors); programs from a token grammar over the full registry and from pushr's own random_code, on random initial states (every typed stack, INPUT queue incl. empty bodies, bindings, flags, varied configurations), single-stepped (<=120 steps, every transition validated) and run by the bounded run loop; program texts through the parser; the real EXEC.CMD on harmless operand tuples; a supervised worker with an address-space limit catches aborts; size-like operands of allocating instructions are capped at 2000 and code items at 3000 points (resource envelope); non-trivial = the state changed",
         "assumptions": ["EXEC.CMD is replaced by a stub with the same stack effect in generated cases (no sleep, no spawn)",
                         "resource envelope: operand-controlled allocation sizes bounded (C15 owns the envelope itself)"],
     },
